@@ -1,7 +1,7 @@
 /-
 Shape tie (Link): the state the model carries is exactly the state the Rust structs carry.
-`Generated/Shapes.lean` is re-read from /repo/src on every run (field names, declaration order, types
-as written). The model was written against the field lists below – `Model/LinkFormat.lean`: writer state = (sink, isFirst, addNewlines, error); parsers = the remaining input; `Uq` = (rest, state).
+`Generated/Shapes.lean` is re-read from /repo/src on every run (field names, types as written up to
+module paths and lifetimes; order is irrelevant). The model was written against the field lists below – `Model/LinkFormat.lean`: writer state = (sink, isFirst, addNewlines, error); parsers = the remaining input; `Uq` = (rest, state).
 A field added to, removed from or retyped in one of these structs (a memo, a marker, a digest instead
 of the data, a narrower counter) makes the corresponding `rfl` fail: the hand-written model then no
 longer accounts for all the state of the code, whatever the correspondence runs happen to explore.
@@ -11,18 +11,18 @@ import CoapLite.Generated.Shapes
 namespace CoapLite.ShapeTie
 
 theorem linkFormatWrite : Shapes.linkFormatWrite =
-    [("write", "&'amutT"), ("is_first", "bool"), ("add_newlines", "bool"), ("error", "Option<core::fmt::Error>")] := rfl
+    [("add_newlines", "bool"), ("error", "Option<Error>"), ("is_first", "bool"), ("write", "&mutT")] := rfl
 
 theorem linkAttributeWrite : Shapes.linkAttributeWrite =
-    [("0", "&'bmutLinkFormatWrite<'a,T>")] := rfl
+    [("0", "&mutLinkFormatWrite<T>")] := rfl
 
 theorem linkFormatParser : Shapes.linkFormatParser =
-    [("inner", "&'astr")] := rfl
+    [("inner", "&str")] := rfl
 
 theorem linkAttributeParser : Shapes.linkAttributeParser =
-    [("inner", "&'astr")] := rfl
+    [("inner", "&str")] := rfl
 
 theorem unquote : Shapes.unquote =
-    [("inner", "core::str::Chars<'a>"), ("state", "UnquoteState")] := rfl
+    [("inner", "Chars"), ("state", "UnquoteState")] := rfl
 
 end CoapLite.ShapeTie
